@@ -422,6 +422,75 @@ def find (s : Srv) (db : DB) (rq : Req) : Result :=
       | .ok p d => authenticatedResult s rq p d
       | r => r
 
+/-- `dnssvc.newDeviceFinder` followed by `Find`: a server group with `profiles_enabled = false` gets
+`agd.EmptyDeviceFinder`, whose `Find` returns nil. -/
+def findIn (profilesEnabled : Bool) (s : Srv) (db : DB) (rq : Req) : Result :=
+  if !profilesEnabled then .none else find s db rq
+
+/-! ## The DoH server's request information (`dnsserver.addRequestInfo`, `http.Request.BasicAuth`) -/
+
+def b64Val (c : Char) : Option Nat :=
+  if 'A' ≤ c && c ≤ 'Z' then some (c.toNat - 65)
+  else if 'a' ≤ c && c ≤ 'z' then some (c.toNat - 71)
+  else if '0' ≤ c && c ≤ '9' then some (c.toNat + 4)
+  else if c = '+' then some 62
+  else if c = '/' then some 63
+  else none
+
+/-- `base64.StdEncoding.DecodeString` on input without CR/LF (padding required, trailing bits not
+checked); bytes are characters 0–255. -/
+def b64Decode : Str → Option Str
+  | [] => some []
+  | [a, b, '=', '='] =>
+    match b64Val a, b64Val b with
+    | some x, some y => some [Char.ofNat (x * 4 + y / 16)]
+    | _, _ => none
+  | [a, b, c, '='] =>
+    match b64Val a, b64Val b, b64Val c with
+    | some x, some y, some z => some [Char.ofNat (x * 4 + y / 16), Char.ofNat (y % 16 * 16 + z / 4)]
+    | _, _, _ => none
+  | a :: b :: c :: d :: r =>
+    match b64Val a, b64Val b, b64Val c, b64Val d, b64Decode r with
+    | some x, some y, some z, some w, some rest =>
+      some (Char.ofNat (x * 4 + y / 16) :: Char.ofNat (y % 16 * 16 + z / 4) :: Char.ofNat (z % 4 * 64 + w) :: rest)
+    | _, _, _, _, _ => none
+  | _ => none
+
+/-- `strings.Cut(s, ":")`. -/
+def cutColon : Str → Option (Str × Str)
+  | [] => none
+  | c :: cs =>
+    if c = ':' then some ([], cs)
+    else match cutColon cs with
+      | none => none
+      | some (a, b) => some (c :: a, b)
+
+def basicPrefix : Str := ['b', 'a', 's', 'i', 'c', ' ']
+
+/-- `net/http.parseBasicAuth`: case-insensitive `Basic ` prefix, base64, split at the first colon. -/
+def parseBasicAuth (h : Str) : Option (Str × Str) :=
+  if h.length < 6 || lower (h.take 6) ≠ basicPrefix then none
+  else match b64Decode (h.drop 6) with
+    | none => none
+    | some cs => cutColon cs
+
+/-- What the DoH server looks at in an HTTP request. -/
+structure HttpReq where
+  /-- TLS connection state present? with which server name. -/
+  tls : Option Str
+  /-- First `Authorization` header value, empty if absent. -/
+  auth : Str
+  path : Str
+
+/-- `addRequestInfo`: URL path, TLS server name (if there is a TLS state), and userinfo — always
+*with* a password, possibly empty — iff `BasicAuth()` succeeds.  Everything else of `rq` (EDNS,
+addresses) is the DNS message's / connection's. -/
+def addRequestInfo (h : HttpReq) (rq : Req) : Req :=
+  { rq with
+    userinfo := (parseBasicAuth h.auth).map (fun up => (up.1, some up.2)),
+    path := h.path,
+    sni := h.tls.getD [] }
+
 /-! ## What the rest of the pipeline sees -/
 
 /-- `ratelimitmw.handleDeviceResult`: does the request continue? -/
